@@ -153,6 +153,16 @@ func source(r *rng, layout string, sh []int, base int) (string, int) {
 	switch layout {
 	case "rm", "cm", "cmb":
 		return fmt.Sprintf("new:%s:%s:%d", layout, s, base), 0
+	case "Trev": // lazily transposed with the axes reversed (never the identity for rank >= 2)
+		n := len(sh)
+		if n < 2 {
+			return fmt.Sprintf("new:rm:%s:%d", s, base), 0
+		}
+		q := make([]int, n)
+		for i := range sh {
+			q[n-1-i] = sh[i]
+		}
+		return fmt.Sprintf("new:rm:%s:%d;T:0:_", fints(q), base), 0
 	case "T": // lazily transposed so that the transposed shape is sh
 		n := len(sh)
 		if n < 2 {
@@ -215,7 +225,7 @@ func source(r *rng, layout string, sh []int, base int) (string, int) {
 		p, i := source(r, "stepslice", sh, base)
 		return p + fmt.Sprintf(";clone:%d", i), i + 1
 	case "mat": // materialised from a transposed tensor
-		p, i := source(r, "T", sh, base)
+		p, i := source(r, "Trev", sh, base)
 		q := p + fmt.Sprintf(";mat:%d", i)
 		if _, ok := shapeAfter("f64", q, i+1); !ok {
 			// the transpose was a no-op, Materialize returns the tensor itself
